@@ -203,7 +203,9 @@ def build_harness(pid, sources, harness_cpp, flavour='asan', extra_flags=(), lib
     inc = ['-I' + os.path.join(REPO, 'modules'), '-I' + os.path.join(REPO, '3rd-party'),
            '-I' + os.path.join(VERIF, 'harness')]
     flags = COMMON_DEFS + FLAVOURS[flavour] + inc + list(extra_flags)
-    objdir = os.path.join(CACHE, 'obj', flavour)
+    # objects of scratch trees (VERIF_REPO != /repo) live apart so they can be removed with the tree
+    objdir = os.path.join(CACHE, 'obj', flavour) if REPO == '/repo' else \
+        os.path.join(CACHE, 'obj_scratch', hashlib.sha1(REPO.encode()).hexdigest()[:8], flavour)
     srcs = [os.path.join(REPO, s) for s in sources] + [harness_cpp]
     with ThreadPoolExecutor(NPROC) as ex:
         res = list(ex.map(lambda s: compile_obj(s, flags, objdir), srcs))
